@@ -46,6 +46,7 @@ type Check struct {
 	shardK    int // this process handles shard shardK of shardN (child mode), default 0/1
 	shardN    int
 	partial   string // child mode: write partial results here instead of evidence
+	replayKey string // replay mode (--replay file): only the violation with this key is looked for
 	violLog   []map[string]interface{}
 	distKeys  bool
 }
@@ -79,6 +80,23 @@ func NewCheck(id, tier, level string) *Check {
 		fmt.Sscanf(s, "%d/%d", &c.shardK, &c.shardN)
 		c.partial = argVal("--partial", "")
 	}
+	// --replay <file>: re-run the enumeration of the tier recorded in the replay file and report only the
+	// violation with the recorded key (the key identifies the case; children inherit it through the environment)
+	if rp := argVal("--replay", ""); rp != "" {
+		var pl struct {
+			Key  string `json:"key"`
+			Tier string `json:"tier"`
+		}
+		b, err := os.ReadFile(rp)
+		if err != nil || json.Unmarshal(b, &pl) != nil || pl.Key == "" {
+			fatalf("cannot read replay file %s", rp)
+		}
+		os.Setenv("VERIF_REPLAY_KEY", pl.Key)
+		if pl.Tier == "thorough" || pl.Tier == "quick" {
+			c.Tier = pl.Tier
+		}
+	}
+	c.replayKey = os.Getenv("VERIF_REPLAY_KEY")
 	data, err := os.ReadFile(filepath.Join(verifRoot, "known_findings.json"))
 	if err == nil {
 		var all []knownFinding
@@ -147,6 +165,10 @@ func (c *Check) Set(k string, v interface{}) {
 func (c *Check) Violation(key string, payload map[string]interface{}) {
 	c.mu.Lock()
 	defer c.mu.Unlock()
+	if c.replayKey != "" && key != c.replayKey {
+		return
+	}
+	payload["tier"] = c.Tier
 	for _, f := range c.findings {
 		if f.Status == "known" && f.Key == key {
 			if !c.known[key] {
@@ -254,6 +276,15 @@ func (c *Check) Finish() int {
 		"assumptions": c.Assump,
 		"wall_s":      time.Since(c.start).Seconds(),
 		"violations":  c.viol,
+	}
+	if c.replayKey != "" {
+		// replay mode never rewrites the evidence file
+		if c.viol > 0 {
+			fmt.Printf("REPLAY: violation %q reproduced\n", c.replayKey)
+			return 1
+		}
+		fmt.Printf("REPLAY: violation %q not reproduced (evaluations=%d)\n", c.replayKey, c.evals)
+		return 0
 	}
 	os.MkdirAll(filepath.Join(verifRoot, "evidence"), 0o755)
 	data, _ := json.MarshalIndent(ev, "", " ")
